@@ -16,7 +16,7 @@ try:
         r = subprocess.run(["/venv/bin/python", "-m", "pytest", "-q", "-p", "no:cacheprovider", "--timeout=900", "-x"], cwd=wt, env={**os.environ, "PYTHONPATH": wt + "/src"}, capture_output=True, text=True, timeout=900)
         print("baseline:", r.stdout.strip().splitlines()[-1] if r.stdout.strip() else r.stderr[-300:])
     for pid in ids:
-        r = subprocess.run(["./check", pid, "--tier", tier], cwd="/verif", env={**os.environ, "VERIF_REPO": wt}, capture_output=True, text=True, timeout=3600)
+        r = subprocess.run(["./check", pid, "--tier", tier], cwd="/verif", env={**os.environ, "VERIF_REPO": wt, "VERIF_REPLAY_DIR": "/tmp/vf-mut-replay"}, capture_output=True, text=True, timeout=3600)
         lines = [l[:230] for l in r.stdout.splitlines() if not l.startswith("KNOWN-FINDING")]
         print(f"[{pid}] rc={r.returncode}"); print("\n".join(lines[-int(os.environ.get('MUT_LINES', '4')):]))
 finally:
